@@ -217,6 +217,7 @@ def run(ctx: RuleContext, p: Program) -> None:
     from . import presence as _presence
     # the parse-side hooks decide by presence, not by truthiness: an empty narration is a narration
     ctx.try_rule(_presence.rule_presence_truth, p, 'PRESENCE-TRUTH')
+    ctx.try_rule(rule_sep_lex, p, 'SEP-LEX')
     ctx.not_decided += ['that the printed text of a constructed model parses (runtime / lexer)',
                         'that the parsed result has equal fields and values (runtime)']
     ctx.assumptions += ['detach()/reattach() semantics as decided under C05', 'separator tokens are deep-copied (SEP-PROV under C03/C11)']
@@ -351,3 +352,104 @@ def rule_fv_arg(ctx: RuleContext, p: Program, rid: str) -> None:
                               f'{m.relpath}:{k.value.lineno}', note=f'{k.arg} <- {sorted(got)}')
     if n < 60:
         raise AnalysisError(f'FV-ARG: only {n} forwarded keywords found')
+
+
+# ====================================================================== SEP-LEX (round 10)
+def rule_sep_lex(ctx: RuleContext, p: Program, rid: str) -> None:
+    """a separator token that from_children puts directly behind a token child must not be swallowed by that token's terminal when the text is lexed again"""
+    import re
+    from . import c12
+    from .. import rx
+    ctx.rule(rid, 'in every from_children that lays its tokens out as one list (`tokens = [*a.detach(), Whitespace.from_default(), *b.detach(), ...]`): a '
+                  'separator token that directly follows a child whose type is a token class is not absorbed by that class\'s terminal when the printed '
+                  'text is lexed again -- for sample lexemes w of the terminal (shortest words of its automaton and the default text of the class), the '
+                  'terminal matched at the start of w + <separator text> + "x" ends at len(w).  A terminal that runs to the end of the line (IGNORED, '
+                  'INLINE_COMMENT) takes the blank in: the model that is parsed back has another text in that token than the one constructed')
+    g = c12.grammar(p)
+    tok_by_name: dict = {}
+    for c in p.registered('token_model'):
+        tok_by_name.setdefault(c.name, c)
+    term_cache: dict = {}
+
+    def terminal_of(cname: str) -> Any:
+        if cname in term_cache:
+            return term_cache[cname]
+        c = tok_by_name.get(cname)
+        out = None
+        if c is not None:
+            r = p.class_const(c, 'RULE')
+            if isinstance(r, ast.Constant) and r.value in g.terminals:
+                pat = g.terminals[r.value].pattern
+                flags = 0
+                for f in getattr(pat, 'flags', ()) or ():
+                    flags |= {'i': re.I, 'm': re.M, 's': re.S, 'x': re.X, 'u': re.U}.get(f, 0)
+                term = re.compile(pat.to_regexp(), flags)
+                words = []
+                try:
+                    ok, w = rx.included(g.terminal_nfa(r.value), rx.from_regex('[^\\s\\S]'))
+                    if not ok and isinstance(w, str) and term.fullmatch(w):
+                        words.append(w)
+                except Exception:
+                    pass
+                d = p.class_const(c, 'DEFAULT')
+                if isinstance(d, ast.Constant) and isinstance(d.value, str) and d.value and term.fullmatch(d.value):
+                    words.append(d.value)
+                out = (r.value, term, words)
+        term_cache[cname] = out
+        return out
+
+    def default_text(cname: str) -> Any:
+        c = tok_by_name.get(cname)
+        if c is None:
+            return None
+        d = p.class_const(c, 'DEFAULT')
+        return d.value if isinstance(d, ast.Constant) and isinstance(d.value, str) else None
+
+    n_funcs = n_adj = 0
+    for fn in p.all_funcs:
+        if fn.name != 'from_children' or fn.cls is None or fn.module.name.endswith('_test') or not fn.module.name.startswith('autobean_refactor'):
+            continue
+        # the token layout: the one list display that holds `*<child>.detach()` elements (bound to a name or handed to from_tokens directly)
+        lists = [a for a in walk_no_nested(fn.node) if isinstance(a, ast.List) and any(
+            isinstance(x, ast.Starred) and isinstance(x.value, ast.Call) and isinstance(x.value.func, ast.Attribute) and x.value.func.attr in ('detach', 'detach_with_separators')
+            for x in a.elts)]
+        if len(lists) != 1:
+            continue
+        n_funcs += 1
+        ann = {a.arg: norm(a.annotation) for a in [*fn.node.args.args, *fn.node.args.kwonlyargs] if a.annotation is not None}
+        local_cls = {a.targets[0].id: norm(a.value.func.value) for a in walk_no_nested(fn.node) if isinstance(a, ast.Assign) and len(a.targets) == 1
+                     and isinstance(a.targets[0], ast.Name) and isinstance(a.value, ast.Call) and isinstance(a.value.func, ast.Attribute)
+                     and a.value.func.attr in ('from_default', 'from_value', 'from_raw_text')}
+        elts = lists[0].elts
+        for i in range(1, len(elts)):
+            sep, prev = elts[i], elts[i - 1]
+            if not (isinstance(sep, ast.Call) and isinstance(sep.func, ast.Attribute) and sep.func.attr == 'from_default'):
+                continue
+            sep_text = default_text(norm(sep.func.value).rsplit('.', 1)[-1])
+            if not sep_text:
+                continue
+            if not (isinstance(prev, ast.Starred) and isinstance(prev.value, ast.Call) and isinstance(prev.value.func, ast.Attribute)
+                    and prev.value.func.attr == 'detach' and isinstance(prev.value.func.value, ast.Name)):
+                continue
+            who = prev.value.func.value.id
+            cname = (ann.get(who) or local_cls.get(who) or '').rsplit('.', 1)[-1]
+            t = terminal_of(cname)
+            if t is None:
+                continue                        # a tree model (its last token is decided where that model is laid out) or an unknown type
+            tname, term, words = t
+            if not words:
+                continue
+            n_adj += 1
+            bad = None
+            for w in words:
+                m_ = term.match(w + sep_text + 'x')
+                if m_ is not None and m_.end() > len(w):
+                    bad = (w, m_.group(0))
+                    break
+            site = f'{fn.module.name.split(".", 1)[1]}:{fn.cls.name}.from_children: {who} ({cname}) followed by {norm(sep)}'
+            ctx.check(bad is None, rid, site, 'the separator is not absorbed' if bad is None else f'{tname} takes {bad[1]!r} out of {bad[0] + sep_text + "x"!r}',
+                      f'the {tname} token {who} is followed by the separator {sep_text!r}; lexed again, {tname} matches {bad[1] if bad else ""!r} -- the separator '
+                      f'becomes part of the token, so the constructed model does not read back as constructed (declare the next field with separators=())',
+                      fn.where, nontrivial=False)
+    if n_funcs < 25 or n_adj < 30:
+        raise AnalysisError(f'SEP-LEX: only {n_funcs} from_children with a token list and {n_adj} token / separator adjacencies found')
